@@ -274,6 +274,7 @@ func (r *readIdleHandler) HandleInactive(ctx InactiveContext, ex Exception) {
 
 func (r *readIdleHandler) onReadTimeout() {
 
+	verifPoint(r, "i.cb")
 	var expired bool
 	var ctx HandlerContext
 
@@ -284,6 +285,7 @@ func (r *readIdleHandler) onReadTimeout() {
 	})
 
 	if expired && ctx != nil {
+		verifPoint(r, "i.deliver")
 		// trigger event.
 		func() {
 			// capture exception.
@@ -298,6 +300,7 @@ func (r *readIdleHandler) onReadTimeout() {
 		}()
 	}
 
+	verifPoint(r, "i.rearm")
 	// reset timer
 	r.withReadLock(func() {
 		if r.readTimer != nil {
@@ -373,6 +376,7 @@ func (w *writeIdleHandler) HandleInactive(ctx InactiveContext, ex Exception) {
 
 func (w *writeIdleHandler) onWriteTimeout() {
 
+	verifPoint(w, "i.cb")
 	var expired bool
 	var ctx HandlerContext
 
@@ -384,6 +388,7 @@ func (w *writeIdleHandler) onWriteTimeout() {
 
 	// check if the idle time expires
 	if expired && ctx != nil {
+		verifPoint(w, "i.deliver")
 		// trigger event.
 		func() {
 			// capture exception
@@ -398,6 +403,7 @@ func (w *writeIdleHandler) onWriteTimeout() {
 		}()
 	}
 
+	verifPoint(w, "i.rearm")
 	// reset timer.
 	w.withReadLock(func() {
 		if w.writeTimer != nil {
